@@ -45,10 +45,27 @@ impl Default for SupervisionTree {
 impl SupervisionTree {
     /// Transactionally replace a child's supervisor and update both parents' child sets.
     pub(crate) fn link(child: &ActorCell, supervisor: ActorCell) -> bool {
+        Self::link_with(child, supervisor, false)
+    }
+
+    /// The link made while an actor is being started. Unlike a later (re-)link it accepts a child
+    /// that is already `Draining`: an instant spawn hands its reference out before the actor has
+    /// started, so a drain can precede the start; that actor still has to start, work through what it
+    /// accepted and report its exit to this supervisor.
+    pub(crate) fn link_at_spawn(child: &ActorCell, supervisor: ActorCell) -> bool {
+        Self::link_with(child, supervisor, true)
+    }
+
+    fn link_with(child: &ActorCell, supervisor: ActorCell, at_spawn: bool) -> bool {
         verif_point!("tree:link");
         let _mutation_guard = TREE_MUTATION_LOCK.lock().unwrap();
 
-        if child.get_status() >= super::actor_cell::ActorStatus::Draining
+        let child_limit = if at_spawn {
+            super::actor_cell::ActorStatus::Stopping
+        } else {
+            super::actor_cell::ActorStatus::Draining
+        };
+        if child.get_status() >= child_limit
             || supervisor.get_status() >= super::actor_cell::ActorStatus::Draining
         {
             return false;
